@@ -206,6 +206,7 @@ type stdIngress struct {
 	UA    int  `json:"ua"`
 	Entry int  `json:"listen_entry"`
 	TCP   bool `json:"tcp"`
+	Alt   bool `json:"second_connection,omitempty"` // TCP: the user agent's second connection to that listener
 }
 
 func (s *stdSvc) transportOf(g stdIngress) *mTransport {
@@ -223,12 +224,31 @@ func (s *stdSvc) sender(g stdIngress) (func([]byte) error, string, int, error) {
 		ua := s.uas[g.UA]
 		return func(b []byte) error { return ua.sendUDP(l.Addr, l.UDPPort, b) }, ua.ip, ua.port, nil
 	}
-	c, err := s.tcpClient(g.UA, g.Entry)
+	c, err := s.tcpConnOf(g)
 	if err != nil {
 		return nil, "", 0, err
 	}
 	_, port := splitHostPort(c.local)
 	return c.send, s.ip(10 + g.UA), port, nil
+}
+
+// tcpConnOf: the client connection a TCP ingress path uses (a user agent may
+// hold two connections to the same listener).
+func (s *stdSvc) tcpConnOf(g stdIngress) (*labTCPConn, error) {
+	if !g.Alt {
+		return s.tcpClient(g.UA, g.Entry)
+	}
+	key := fmt.Sprintf("%d-%d-alt", g.UA, g.Entry)
+	if c, ok := s.tcpUA[key]; ok && !c.isDead() {
+		return c, nil
+	}
+	l := s.in.cfg.Listens[g.Entry]
+	c, err := s.in.hub.dialTCP(fmt.Sprintf("ua%d''", g.UA), s.ip(10+g.UA), l.Addr, l.TCPPort)
+	if err != nil {
+		return nil, err
+	}
+	s.tcpUA[key] = c
+	return c, nil
 }
 
 func (s *stdSvc) nextID(prefix string) string {
